@@ -42,6 +42,19 @@ macro_rules! on_reg {
     };
 }
 
+macro_rules! on_reg_map {
+    ($reg:expr) => {
+        match $reg {
+            Reg::Two(h) => Reg::Two(h.clone()),
+            Reg::Three(h) => Reg::Three(h.clone()),
+            Reg::Four(h) => Reg::Four(h.clone()),
+            Reg::Five(h) => Reg::Five(h.clone()),
+            Reg::Six(h) => Reg::Six(h.clone()),
+            Reg::Seven(h) => Reg::Seven(h.clone()),
+        }
+    };
+}
+
 pub const SIZE_NAMES: [&str; 8] = ["-", "-", "Two", "Three", "Four", "Five", "Six", "Seven"];
 
 /// The array model of one register; `n == 0` means the register is empty.
@@ -78,6 +91,10 @@ pub enum Op {
     Select { dst: u8, src: u8, idx: [u8; 5] },
     CopyOut { dst: u8, src: u8 },
     SortInPlace { r: u8 },
+    /// `dst = src.clone()`
+    CloneOut { dst: u8, src: u8 },
+    /// `dst.clone_from(&src)` when both hold the same size
+    CloneFrom { dst: u8, src: u8 },
 }
 
 pub const K_NEW: usize = 0;
@@ -88,7 +105,9 @@ pub const K_COMPOSE7: usize = 4;
 pub const K_SELECT: usize = 5;
 pub const K_COPY: usize = 6;
 pub const K_SORT: usize = 7;
-const KINDS: [&str; 8] = ["New", "NewDefault", "Set", "Compose6", "Compose7", "Select", "CopyOut", "SortInPlace"];
+pub const K_CLONE: usize = 8;
+pub const K_CLONE_FROM: usize = 9;
+const KINDS: [&str; 10] = ["New", "NewDefault", "Set", "Compose6", "Compose7", "Select", "CopyOut", "SortInPlace", "CloneOut", "CloneFrom"];
 
 // ---- probes ---------------------------------------------------------------
 
@@ -133,7 +152,10 @@ const P_SELECT_FROM_MUTATED: usize = 87;
 const P_COMPOSE_FROM_MUTATED: usize = 88;
 const P_LEN_XL: usize = 89;
 const P_ALPHA_DECK: usize = 90;
-const NPROBES: usize = 91;
+const P_CLONE: usize = 91;
+const P_CLONE_FROM: usize = 92;
+const P_CLONE_FROM_PERMUTATION: usize = 93;
+const NPROBES: usize = 94;
 
 fn probe_names() -> Vec<String> {
     let mut v = vec![String::new(); NPROBES];
@@ -183,6 +205,9 @@ fn probe_names() -> Vec<String> {
     v[P_LEN_M] = "swarm_history_len_4_12".into();
     v[P_LEN_L] = "swarm_history_len_13_48".into();
     v[P_LEN_XL] = "swarm_history_long_lived_200_plus_operations".into();
+    v[P_CLONE] = "clone_out".into();
+    v[P_CLONE_FROM] = "clone_from_same_size".into();
+    v[P_CLONE_FROM_PERMUTATION] = "clone_from_where_destination_holds_a_permutation_of_the_source".into();
     v[P_ALPHA_DECK] = "swarm_alphabet_distinct_cards_from_a_shuffled_deck_some_flagged".into();
     v[P_SIZEMASK_ALL] = "swarm_all_sizes_enabled".into();
     v[P_SIZEMASK_SUBSET] = "swarm_subset_of_sizes_enabled".into();
@@ -191,8 +216,8 @@ fn probe_names() -> Vec<String> {
     v
 }
 
-// cell = (op kind 8) x (size 6) x (slot 7) x (mask of slots overwritten before, 128)
-const CELL_BITS: usize = 8 * 6 * 7 * 128;
+// cell = (op kind 10) x (size 6) x (slot 7) x (mask of slots overwritten before, 128)
+const CELL_BITS: usize = 10 * 6 * 7 * 128;
 #[inline]
 fn cell(kind: usize, n: usize, slot: usize, mask: u8) -> usize {
     ((kind * 6 + (n - 2)) * 7 + slot) * 128 + mask as usize
@@ -411,6 +436,31 @@ fn check_reg(reg: &Reg, m: &M, odd_step: bool) -> Option<(&'static str, String, 
             return Some(("I3-iter", format!("iter() item {} = {:#010x}, model slot {} = {:#010x}; iter = {}, model = {}", k, it[k], k, want[k], words_str(&it[..n]), words_str(want)), it[k]));
         }
     }
+    // The same reads through the traits' own paths. Method syntax resolves to an inherent method
+    // when a type has one of that name, so `h.first()` alone would stop exercising the trait's
+    // `first` / `iter` the day somebody adds inherent twins; generic callers still reach the trait.
+    let tfirst = on_reg!(reg, h => HandValidator::first(h));
+    if tfirst != want[0] {
+        return Some(("I2-accessor", format!("HandValidator::first(&hand) returned {:#010x}, model slot 0 = {:#010x}; model = {}", tfirst, want[0], words_str(want)), tfirst));
+    }
+    {
+        let mut k = 0usize;
+        let mut bad: Option<(usize, u32)> = None;
+        on_reg!(reg, h => {
+            for x in HandValidator::iter(h) {
+                if bad.is_none() && (k >= n || *x != want[k]) {
+                    bad = Some((k, *x));
+                }
+                k += 1;
+            }
+        });
+        if k != n {
+            return Some(("I3-iter", format!("HandValidator::iter(&hand) yielded {} items, container has {} slots", k, n), 0));
+        }
+        if let Some((k, x)) = bad {
+            return Some(("I3-iter", format!("HandValidator::iter(&hand) item {} = {:#010x}, model slot {} = {:#010x}", k, x, k, want[k]), x));
+        }
+    }
     // I5: the slot-index selection read path, on the identity and the reversed tuple
     // (between them every slot), for every live six- or seven-slot register
     // The two selections are made in alternating order from step to step, so that the same
@@ -445,6 +495,20 @@ fn check_reg(reg: &Reg, m: &M, odd_step: bool) -> Option<(&'static str, String, 
             }
             if ra[j] != want[ridx[j]] {
                 return Some(("I5-select", format!("five_from_permutation({:?}) slot {} = {:#010x}, model slot {} = {:#010x}", ridx, j, ra[j], ridx[j], want[ridx[j]]), ra[j]));
+            }
+        }
+    }
+    // … and the selection through `Permutator::five_from_permutation` named as the trait's method
+    let tsel = match reg {
+        Reg::Six(x) => Some((Permutator::five_from_permutation(x, [5, 3, 1, 4, 2]), [5usize, 3, 1, 4, 2])),
+        Reg::Seven(x) => Some((Permutator::five_from_permutation(x, [6, 4, 2, 0, 5]), [6usize, 4, 2, 0, 5])),
+        _ => None,
+    };
+    if let Some((five, idx)) = tsel {
+        let a = five.to_arr();
+        for j in 0..5 {
+            if a[j] != want[idx[j]] {
+                return Some(("I5-select", format!("Permutator::five_from_permutation(&hand, {:?}) slot {} = {:#010x}, model slot {} = {:#010x}", idx, j, a[j], idx[j], want[idx[j]]), a[j]));
             }
         }
     }
@@ -709,12 +773,12 @@ impl C19 {
                         (Some(Reg::Six(x)), true) => {
                             at(step, kind, "Six");
                             obs.hit(P_SELECT6);
-                            Some(x.five_from_permutation(*idx))
+                            Some(if step % 2 == 1 { Permutator::five_from_permutation(&x, *idx) } else { x.five_from_permutation(*idx) })
                         }
                         (Some(Reg::Seven(x)), true) => {
                             at(step, kind, "Seven");
                             obs.hit(P_SELECT7);
-                            Some(x.five_from_permutation(*idx))
+                            Some(if step % 2 == 1 { Permutator::five_from_permutation(&x, *idx) } else { x.five_from_permutation(*idx) })
                         }
                         _ => None,
                     };
@@ -794,6 +858,70 @@ impl C19 {
                                 obs.log(format!("#{} copy: not applicable, no-op", step));
                             }
                         }
+                    }
+                }
+                Op::CloneOut { dst, src } => {
+                    let (d, sr) = (*dst as usize % NREGS, *src as usize % NREGS);
+                    match regs[sr] {
+                        Some(reg) if d != sr => {
+                            let n = model[sr].n as usize;
+                            at(step, kind, SIZE_NAMES[n]);
+                            #[allow(clippy::clone_on_copy)]
+                            let cl = on_reg_map!(reg);
+                            regs[d] = Some(cl);
+                            model[d] = model[sr];
+                            over[d] = over[sr];
+                            copied[d] = true;
+                            copied[sr] = true;
+                            was_src[d] = false;
+                            obs.hit(P_CLONE);
+                            obs.cell(cell(kind, n, 0, over[sr]));
+                            h = fold(h, (d as u64) << 8 | sr as u64);
+                            if obs.tracing() {
+                                obs.log(format!("#{} r{} := r{}({}).clone()", step, d, sr, SIZE_NAMES[n]));
+                            }
+                            touched = Some(d);
+                        }
+                        _ => obs.hit(P_NOOP),
+                    }
+                }
+                Op::CloneFrom { dst, src } => {
+                    let (d, sr) = (*dst as usize % NREGS, *src as usize % NREGS);
+                    let same_size = model[d].n > 0 && model[d].n == model[sr].n && d != sr;
+                    if same_size {
+                        let n = model[sr].n as usize;
+                        at(step, kind, SIZE_NAMES[n]);
+                        let mut a: Vec<u32> = model[d].slice().to_vec();
+                        let mut b: Vec<u32> = model[sr].slice().to_vec();
+                        a.sort_unstable();
+                        b.sort_unstable();
+                        if a == b && model[d] != model[sr] {
+                            obs.hit(P_CLONE_FROM_PERMUTATION);
+                        }
+                        let source = regs[sr].unwrap();
+                        match (regs[d].as_mut().unwrap(), &source) {
+                            (Reg::Two(x), Reg::Two(y)) => x.clone_from(y),
+                            (Reg::Three(x), Reg::Three(y)) => x.clone_from(y),
+                            (Reg::Four(x), Reg::Four(y)) => x.clone_from(y),
+                            (Reg::Five(x), Reg::Five(y)) => x.clone_from(y),
+                            (Reg::Six(x), Reg::Six(y)) => x.clone_from(y),
+                            (Reg::Seven(x), Reg::Seven(y)) => x.clone_from(y),
+                            _ => {}
+                        }
+                        model[d] = model[sr];
+                        over[d] = over[sr];
+                        copied[d] = true;
+                        copied[sr] = true;
+                        obs.hit(P_CLONE_FROM);
+                        obs.cell(cell(kind, n, 0, over[sr]));
+                        nontrivial = true;
+                        h = fold(h, (d as u64) << 8 | sr as u64);
+                        if obs.tracing() {
+                            obs.log(format!("#{} r{}.clone_from(&r{}) ({})", step, d, sr, SIZE_NAMES[n]));
+                        }
+                        touched = Some(d);
+                    } else {
+                        obs.hit(P_NOOP);
                     }
                 }
                 Op::SortInPlace { r } => {
@@ -894,13 +1022,13 @@ const ALPHA_SORTED: usize = 3;
 const ALPHA_MIXED: usize = 4;
 const ALPHA_DECK: usize = 5;
 
-// weights: New, NewDefault, Set, Compose6, Compose7, Select, CopyOut, SortInPlace
-const MIXES: [[u32; 8]; 5] = [
-    [3, 1, 48, 2, 2, 3, 3, 1],   // setter heavy
-    [8, 2, 18, 12, 12, 4, 3, 1], // compose heavy
-    [5, 1, 16, 4, 4, 24, 3, 1],  // select heavy
-    [6, 2, 26, 6, 6, 8, 6, 3],   // balanced
-    [5, 1, 24, 3, 3, 4, 18, 2],  // copy heavy
+// weights: New, NewDefault, Set, Compose6, Compose7, Select, CopyOut, SortInPlace, CloneOut, CloneFrom
+const MIXES: [[u32; 10]; 5] = [
+    [3, 1, 48, 2, 2, 3, 3, 1, 1, 2],   // setter heavy
+    [8, 2, 18, 12, 12, 4, 3, 1, 1, 2], // compose heavy
+    [5, 1, 16, 4, 4, 24, 3, 1, 1, 2],  // select heavy
+    [6, 2, 26, 6, 6, 8, 6, 3, 3, 5],   // balanced
+    [5, 1, 24, 3, 3, 4, 18, 2, 8, 14],  // copy heavy
 ];
 
 struct Gen<'a> {
@@ -1050,7 +1178,8 @@ impl World for C19 {
     fn cells_reachable() -> Option<u64> {
         // Set: sum over sizes of slots x 2^slots = 1536; CopyOut: sum of 2^slots = 252;
         // New, NewDefault, SortInPlace: one per size; Compose: 2; Select: 6 + 7 first indexes
-        Some(1536 + 252 + 6 + 6 + 6 + 2 + 13)
+        // CloneOut / CloneFrom: like CopyOut, 252 each
+        Some(1536 + 252 + 6 + 6 + 6 + 2 + 13 + 252 + 252)
     }
     fn cell_rule() -> &'static str {
         "abstract step cell = (operation kind, container size, slot written or first selected index, mask of slots of that register already overwritten by setters since it was created)"
@@ -1213,6 +1342,32 @@ impl World for C19 {
                         g.shadow[dst] = g.shadow[s];
                     }
                     Op::CopyOut { dst: dst as u8, src: s as u8 }
+                }
+                K_CLONE => {
+                    let s = *g.rng.pick(&live);
+                    let dst = g.dst();
+                    if dst != s {
+                        g.shadow[dst] = g.shadow[s];
+                    }
+                    Op::CloneOut { dst: dst as u8, src: s as u8 }
+                }
+                K_CLONE_FROM => {
+                    // destination of the same size; often one that was derived from the source
+                    // (a copy that has since been sorted or had two words swapped by setters)
+                    let s = *g.rng.pick(&live);
+                    let n = g.shadow[s].n;
+                    let same: Vec<usize> = (0..g.nregs).filter(|r| *r != s && g.shadow[*r].n == n).collect();
+                    if same.is_empty() {
+                        let dst = g.dst();
+                        if dst != s {
+                            g.shadow[dst] = g.shadow[s];
+                        }
+                        Op::CopyOut { dst: dst as u8, src: s as u8 }
+                    } else {
+                        let d = *g.rng.pick(&same);
+                        g.shadow[d] = g.shadow[s];
+                        Op::CloneFrom { dst: d as u8, src: s as u8 }
+                    }
                 }
                 _ => {
                     let r = *g.rng.pick(&live);
@@ -1565,6 +1720,32 @@ impl World for C19 {
                 }
             }
         }
+        // clone / clone_from: the destination holds a permutation of the source's words (a sorted copy,
+        // or a copy in which two words were swapped through the setters), or something unrelated
+        for n in 2..=7u8 {
+            let mut w = [0u32; 7];
+            for k in 0..n as usize {
+                w[k] = card_word((k * 11 + 5) % 52); // not in sorted order
+            }
+            let mut ops = vec![
+                Op::New { dst: 0, n, via: VIA_ARR, words: w },
+                Op::CloneOut { dst: 1, src: 0 },
+                Op::SortInPlace { r: 1 },
+                Op::CloneFrom { dst: 1, src: 0 }, // sorted copy takes the unsorted original back
+                Op::CopyOut { dst: 2, src: 0 },
+                Op::Set { r: 2, k: 0, w: w[n as usize - 1] },
+                Op::Set { r: 2, k: n - 1, w: w[0] },
+                Op::CloneFrom { dst: 2, src: 0 }, // swapped copy takes the original back
+                Op::New { dst: 3, n, via: VIA_ARR, words: tagged(9) },
+                Op::CloneFrom { dst: 3, src: 0 },
+                Op::CloneFrom { dst: 0, src: 3 },
+            ];
+            for k in 0..n {
+                ops.push(Op::Set { r: 3, k, w: tag(20 + k as u32, k as u32) });
+                ops.push(Op::CloneFrom { dst: 1, src: 3 });
+            }
+            out.push((format!("clone and clone_from {}", SIZE_NAMES[n as usize]), ops));
+        }
         // copies are independent
         for n in 2..=7u8 {
             out.push((
@@ -1590,6 +1771,8 @@ impl World for C19 {
             Op::Select { .. } => K_SELECT,
             Op::CopyOut { .. } => K_COPY,
             Op::SortInPlace { .. } => K_SORT,
+            Op::CloneOut { .. } => K_CLONE,
+            Op::CloneFrom { .. } => K_CLONE_FROM,
         }
     }
 
@@ -1609,6 +1792,8 @@ impl World for C19 {
             Op::Select { dst, src, idx } => J::obj().with("op", J::str("Select")).with("dst", u(*dst)).with("src", u(*src)).with("idx", J::Arr(idx.iter().map(|i| u(*i)).collect())),
             Op::CopyOut { dst, src } => J::obj().with("op", J::str("CopyOut")).with("dst", u(*dst)).with("src", u(*src)),
             Op::SortInPlace { r } => J::obj().with("op", J::str("SortInPlace")).with("r", u(*r)),
+            Op::CloneOut { dst, src } => J::obj().with("op", J::str("CloneOut")).with("dst", u(*dst)).with("src", u(*src)),
+            Op::CloneFrom { dst, src } => J::obj().with("op", J::str("CloneFrom")).with("dst", u(*dst)).with("src", u(*src)),
         }
     }
 
@@ -1649,6 +1834,8 @@ impl World for C19 {
             }
             "CopyOut" => Ok(Op::CopyOut { dst: u8f("dst")?, src: u8f("src")? }),
             "SortInPlace" => Ok(Op::SortInPlace { r: u8f("r")? }),
+            "CloneOut" => Ok(Op::CloneOut { dst: u8f("dst")?, src: u8f("src")? }),
+            "CloneFrom" => Ok(Op::CloneFrom { dst: u8f("dst")?, src: u8f("src")? }),
             other => Err(format!("unknown op {}", other)),
         }
     }
@@ -1709,7 +1896,7 @@ impl World for C19 {
                     }
                 }
             }
-            Op::CopyOut { .. } | Op::SortInPlace { .. } => {}
+            Op::CopyOut { .. } | Op::SortInPlace { .. } | Op::CloneOut { .. } | Op::CloneFrom { .. } => {}
         }
         out
     }
@@ -1726,7 +1913,8 @@ impl World for C19 {
                         "to_arr(), HandValidator::iter(), Three's public field",
                         "Six::from_1_and_2_and_3, Seven::new",
                         "Permutator::five_from_permutation on Six and Seven",
-                        "Copy assignment of containers; HandValidator::sort_in_place as an environment operation (result not judged)",
+                        "Copy assignment, Clone::clone and Clone::clone_from of containers; HandValidator::sort_in_place as an environment operation (result not judged)",
+                        "first(), iter() and five_from_permutation both by method syntax and through the fully qualified trait paths (HandValidator::first, HandValidator::iter, Permutator::five_from_permutation)",
                     ]
                     .iter()
                     .map(|s| J::str(s))
